@@ -389,6 +389,8 @@ class Exec(EvalMixin, CallMixin):
 
     def st_AnnAssign(self, node, st):
         k = kind_of_annotation(node.annotation, self.uni)
+        if isinstance(node.target, ast.Name) and node.target.id in (self.con.get("local_kinds") or {}):
+            k = self.decl_kinds[node.target.id]       # the sidecar's (more precise) kind for this local wins
         if isinstance(node.target, ast.Name):
             self.decl_kinds[node.target.id] = k
         if node.value is None:
